@@ -292,6 +292,7 @@ func tableApp(r *core.Run) {
 	}
 	r.Sample(kase{"T-app", "(map 'list (lambda (x) x) '(a b))"})
 	tableNum(r)
+	tableCond(r)
 	tableAppExt(r) // app_ext.go
 }
 
@@ -348,6 +349,57 @@ func tableNum(r *core.Run) {
 		}
 	}
 	r.Sample(kase{"T-num", "(* 9223372036854775807 2 0.5)"})
+}
+
+// T-cond: clause SHAPES of cond.  Every sequence of 0..4 clauses over a clause alphabet (true / false / empty-list /
+// effectful tests, else and :else clauses, clauses with no, one and two body forms, a test that fails): which clause is
+// taken, which tests run, that an else clause anywhere but last is an error when it is reached -- and only then.
+var condClauses = []string{"(true 1)", "(false 2)", "(else 3)", "(() 4)", "((debug-print 'p) 5 6)", "(true)", "(else)", "((car 7) 8)", "(:else 9)", "((debug-print ()) (debug-print 'q))"}
+
+func tableCond(r *core.Run) {
+	maxLen := 3
+	if r.Thorough() {
+		maxLen = 4
+	}
+	r.Bound("T-cond_clause_alphabet", condClauses)
+	r.Bound("T-cond_max_clauses", maxLen)
+	for k := 0; k <= maxLen; k++ {
+		k := k
+		total := gen.Pow(len(condClauses), k)
+		core.ParallelRange(r, total, nil, func(_ struct{}, i int64) {
+			ds := make([]int, k)
+			bases := make([]int, k)
+			for x := range bases {
+				bases[x] = len(condClauses)
+			}
+			gen.Radix(i, bases, ds)
+			var sb strings.Builder
+			sb.WriteString("(cond")
+			for _, d := range ds {
+				sb.WriteString(" " + condClauses[d])
+			}
+			sb.WriteString(")")
+			src := sb.String()
+			ref, real := runRef(src), runReal(src)
+			r.AddEvals(1)
+			r.AddTransitions(1)
+			r.AddTraces(1)
+			r.Outcome("T-cond:" + ref.Class + "/" + real.Class)
+			if ref.Class != "unspecified" {
+				r.Nontrivial(src)
+			}
+			if agree(ref, real) {
+				return
+			}
+			cls := fmt.Sprintf("T-cond:%d-clauses:%s-vs-%s", k, ref.Class, real.Class)
+			if r.Seen(cls) >= 2 {
+				r.CountOnly(cls)
+				return
+			}
+			r.Violate("c01", cls, kase{"T-cond", src}, "reference: "+ref.String(), "elps: "+real.String(), "")
+		})
+		r.AddStates(1)
+	}
 }
 
 // ---------------------------------------------------------------------------
